@@ -175,10 +175,56 @@ def oracle_long(ck, name, J, N):
     return None
 
 
+def oracle_bulk(ck, name, J, shape, dtype):
+    """2-D inputs at the bulk end of the size range (many slices / large images, tens of MiB; no operator matrix): critically
+    sampled, energy preserved, inverse(g) == backprop(g), == PyWavelets on the first and the last slice"""
+    import pywt
+    from pytorch_wavelets import DWTForward, DWTInverse
+    w = pywt.Wavelet(name)
+    desc = '2D orthogonality %s periodization J=%d bulk input shape=%s %s' % (name, J, tuple(shape), str(dtype).split('.')[-1])
+    replay = {'oracle': 'bulk', 'name': name, 'J': J, 'shape': list(shape), 'dtype': str(dtype)}
+    old = torch.get_default_dtype()
+    try:
+        torch.set_default_dtype(dtype)
+        fwd = DWTForward(J=J, wave=name, mode='periodization'); inv = DWTInverse(wave=name, mode='periodization')
+    finally:
+        torch.set_default_dtype(old)
+    tol = 1e-9 if dtype == torch.float64 else 2e-4
+    g_ = torch.Generator().manual_seed(int(np.prod(shape)) % 100003)
+    x = torch.randn(*shape, generator=g_, dtype=dtype).requires_grad_(True)
+    try:
+        yl, yh = fwd(x)
+        outs = [yl] + list(yh)
+        n_out = sum(int(np.prod(t.shape[-2:])) * (t.shape[2] if t.dim() == 5 else 1) for t in outs)
+        if n_out != shape[-2] * shape[-1]:
+            ck.fail(desc + ': %d coefficients per slice for %d pixels (not a change of basis; level-1 bands %s)' % (n_out, shape[-2] * shape[-1], tuple(yh[0].shape)), replay); return 'shape'
+        en = float(sum((t.double() ** 2).sum() for t in outs)); ex = float((x.double() ** 2).sum())
+        if abs(en - ex) > tol * max(1.0, ex):
+            ck.fail(desc + ': energy %.10g vs %.10g' % (en, ex), replay); return 'energy'
+        for (n0, c0) in [(0, 0), (shape[0] - 1, shape[1] - 1)]:
+            ref = pywt.wavedec2(x.detach()[n0, c0].double().numpy(), w, mode='periodization', level=J)
+            if float(np.abs(ref[0] - yl.detach()[n0, c0].double().numpy()).max()) > tol * max(1.0, float(np.abs(ref[0]).max())):
+                ck.fail(desc + ': low-pass of slice (%d,%d) differs from pywt.wavedec2' % (n0, c0), replay); return 'pywt'
+        cots = [torch.randn(*t.shape, generator=g_, dtype=dtype) for t in outs]
+        (g,) = torch.autograd.grad(outs, x, cots)
+        with torch.no_grad():
+            s_ = inv((cots[0], cots[1:]))
+        if tuple(s_.shape) != tuple(g.shape) or float((g - s_).abs().max()) > tol * max(1.0, float(s_.abs().max())):
+            ck.fail(desc + ': inverse(g) (shape %s) differs from backprop(g) (shape %s)' % (tuple(s_.shape), tuple(g.shape)), replay); return 'transpose'
+    except Exception as e:
+        ck.fail(desc + ': raises %s: %s' % (type(e).__name__, str(e)[:120]), replay); return 'raise'
+    ck.oracle_ok(('bulk', name, J, tuple(shape), str(dtype)), group='orth2d-bulk', sample={'what': desc, 'energy_defect': abs(en - ex)})
+    return None
+
+
 def oracle(ck, extended):
     rng = ck.rng
     import pywt
     q = ck.tier == 'quick'
+    # the bulk end of the size range: tens of MiB in one call (many slices of small images; one large image)
+    for (name_, J_, shp_, dt_) in [('db5', 1, (64, 65, 32, 32), torch.float32), ('db3', 2, (2, 3, 520, 516), torch.float64)] + \
+            ([] if q else [('sym4', 1, (64, 128, 32, 32), torch.float32), ('coif1', 1, (32, 256, 32, 64), torch.float32), ('db2', 3, (1, 1, 2048, 2048), torch.float32)]):
+        rt.guard(ck, oracle_bulk, ck, name_, J_, shp_, dt_)
     # the long end of the size range (audio-length signals, not powers of two)
     for (name_, J_, N_) in [('db2', 2, 100000), ('haar', 1, 98304)] + ([] if q else [('sym4', 3, 163840), ('db3', 1, 65538), ('coif1', 2, 262148)]):
         rt.guard(ck, oracle_long, ck, name_, J_, N_)
@@ -228,6 +274,8 @@ def replay(ck, path):
         oracle_orth(ck, f['dims'], f['J'], f['name'], tuple(f['shape']))
     elif f['oracle'] == 'functional':
         oracle_functional(ck, f['name'], f['dim'], tuple(f['shape']))
+    elif f['oracle'] == 'bulk':
+        oracle_bulk(ck, f['name'], f['J'], tuple(f['shape']), getattr(torch, f['dtype'].split('.')[-1]))
     elif f['oracle'] == 'long':
         oracle_long(ck, f['name'], f['J'], f['N'])
     else:
